@@ -1609,14 +1609,16 @@ MUTANTS += [
     #endif
         }
         // Do not access target after that point.
-        a.advertise_new_work<arena::wakeup>();""", """#if __TBB_PREVIEW_CRITICAL_TASKS
+        // Like an enqueued task, the resume task can only be taken by a thread inside the arena, and all of them may
+        // have left while the task was suspended: ask for mandatory concurrency as well.
+        a.advertise_new_work<arena::work_enqueued>();""", """#if __TBB_PREVIEW_CRITICAL_TASKS
         if (!task_disp.m_properties.critical_task_allowed) {
             a.my_critical_task_stream.push(&sp->m_resume_task, random_lane_selector(sp->m_random));
         } else
 #endif
         {
             a.my_resume_task_stream.push(&sp->m_resume_task, random_lane_selector(sp->m_random));
-            a.advertise_new_work<arena::wakeup>();
+            a.advertise_new_work<arena::work_enqueued>();
         }""")]),
     dict(name='c16-seed3-mandatory-revocation-skipped', prop='C16', clause='D5', edits=[(AR_CPP,
         "        request_workers(mandatory_delta, workers_delta);\n    }\n}", "        if (workers_delta != 0) {\n            request_workers(mandatory_delta, workers_delta);\n        }\n    }\n}")]),
